@@ -277,8 +277,14 @@ func RunOne(t *testing.T, prop *PropDef, seed uint64, index int, tier string, re
 		ch = &schedChooser{t: w.S}
 	} else {
 		w.W, w.F, w.S = NewTape(mixSeed(rs, 1, 0)), NewTape(mixSeed(rs, 2, 0)), NewTape(mixSeed(rs, 3, 0))
-		sd, bud := policyFor(rs)
-		ch = &schedChooser{t: w.S, stickyDen: sd, preemptBudget: bud}
+		if r := (rng{s: rs ^ 0x9c71}); r.intn(4) == 0 {
+			ch = newPCT(rs) // a quarter of the runs: priority scheduling with 0-3 change points
+			ch.t = w.S
+			w.Config["policy"] = "pct"
+		} else {
+			sd, bud := policyFor(rs)
+			ch = &schedChooser{t: w.S, stickyDen: sd, preemptBudget: bud}
+		}
 	}
 	w.Net = &Net{w: w}
 	res := &RunResult{Index: index}
